@@ -505,7 +505,8 @@ Section Add.
       /\ (forall h, sget (blocks st') h =
                     if (h =? b_hash b) && lg && negb gv then None else sget (blocks st2) h)
       /\ (if lg then wsteps st' <= 2 * (Nlen (hashes (b :: newtl)) + Nlen (hashes oldb))
-          else wsteps st' = wsteps st2).
+          else wsteps st' = wsteps st2)
+      /\ last_id st2 <= last_id st' /\ (lg && gv = true -> b_id b <= last_id st').
   Proof.
     intros W Hb G Hx Hst Hl Hcm Hnc lg gv.
     unfold add_finish. rewrite (latest_id_spec _ _ _ W). cbn [bind]. fold (tip_id (oldb ++ common)).
@@ -529,25 +530,28 @@ Section Add.
       { eapply (reflag_inv st2 st5 _ _ b false true W G Hx); rewrite E5; reflexivity. }
       assert (S5 : same_store (blocks st2) (blocks st5)).
       { rewrite E5. cbn [set_blocks blocks]. apply (same_store_flag _ _ _ true G). }
-      destruct (validate_ok c U HU HWF st5 b newtl oldb common (b_hash b) W5) as (st6 & ok & Ev & S6 & R6 & Eok & W6).
+      destruct (validate_ok c U HU HWF st5 b newtl oldb common (b_hash b) W5) as (st6 & ok & Ev & S6 & R6 & Eok & W6 & L6 & Lb6).
       { intros y Hy. rewrite <- S5. now apply Hst. }
       { exact Hl. }
       { destruct Hcm as [[? _]|(_ & ? & ?)]; auto. }
       rewrite Ev. cbn [bind].
       rewrite <- (gt_count_valid_same st2 st5 _ _ S5) in Eok. fold gv in Eok. subst ok.
       assert (R5 : ring_empty st5 = false) by (rewrite E5; reflexivity).
+      assert (L5 : last_id st5 = last_id st2) by (rewrite E5; reflexivity).
       destruct gv eqn:Egv.
       + exists st6, OnChain. split; [reflexivity|]. split; [congruence|]. split; [reflexivity|].
-        cbn [andb negb]. split; [|split].
+        cbn [andb negb]. split; [|split; [|split; [|split]]].
         * eapply WInv_drop_on; [exact W6|]. cbn [app hashes map]. now left.
         * intros h. rewrite andb_false_r. rewrite <- S6. now rewrite <- S5.
         * apply (validate_steps _ _ _ _ _ _ Ev).
+        * lia.
+        * intros _. now apply Lb6.
       + assert (G6 : exists f6, get_block st6 (b_hash b) = Some (mkSB b f6)).
         { apply sget_get. rewrite <- S6, <- S5. apply (get_sget _ _ _ G). }
         destruct G6 as (f6 & G6).
         rewrite (failure_eq _ _ _ G6).
         exists (failed st6 b), Invalid. split; [reflexivity|]. split; [cbn [failed ring_empty]; congruence|].
-        split; [reflexivity|]. cbn [andb negb]. split; [|split].
+        split; [reflexivity|]. cbn [andb negb]. split; [|split; [|split; [|split]]].
         * apply (failed_inv st6 _ b f6 W6 G6 Hx Hb).
           intros h sb G' E. pose proof (get_sget _ _ _ G') as S'.
           rewrite <- S6, <- S5 in S'. destruct (sget_get _ _ _ S') as (f' & G2).
@@ -555,8 +559,10 @@ Section Add.
         * intros h. rewrite sget_failed by apply (w_store _ _ _ _ _ W6).
           rewrite andb_true_r. destruct (h =? b_hash b); [reflexivity|]. rewrite <- S6. now rewrite <- S5.
         * cbn [failed wsteps]. apply (validate_steps _ _ _ _ _ _ Ev).
+        * cbn [failed last_id]. lia.
+        * discriminate.
     - exists (set_not_empty st2), OffChain. split; [reflexivity|]. split; [reflexivity|].
-      split; [reflexivity|]. cbn [andb]. split; [|split; [|reflexivity]].
+      split; [reflexivity|]. cbn [andb]. split; [|split; [|split; [reflexivity|split; [cbn; lia|discriminate]]]].
       + apply (WInv_ext c U st2 (set_not_empty st2)); [reflexivity..|].
         eapply WInv_drop_off; [exact W|]. intros sb Gs. rewrite G in Gs. injection Gs as <-.
         cbn [s_lc s_b]. split; [reflexivity|].
